@@ -20,7 +20,7 @@ use crate::config::RegExpConfig;
 use crate::dfa::Dfa;
 use crate::expression::Expression;
 use itertools::Itertools;
-use regex::Regex;
+use regex::{Regex, RegexBuilder};
 use std::cmp::Ordering;
 use std::fmt::{Display, Formatter, Result};
 
@@ -52,7 +52,7 @@ impl<'a> RegExp<'a> {
 
             if config.is_verbose_mode_enabled {
                 // Remove line breaks before checking matches, otherwise check will be incorrect.
-                regex = Regex::new(&regex.to_string().replace('\n', "")).unwrap();
+                regex = Self::compile(&regex.to_string().replace('\n', ""), config);
             }
 
             if !Self::is_each_test_case_matched_after_rotating_alternations(
@@ -117,7 +117,7 @@ impl<'a> RegExp<'a> {
         // A lowercased test case is only usable if the regex crate folds it back.
         lower_test_case == test_case
             || test_case.is_ascii()
-            || regex::RegexBuilder::new(&format!("^{}$", regex::escape(lower_test_case)))
+            || RegexBuilder::new(&format!("^{}$", regex::escape(lower_test_case)))
                 .case_insensitive(true)
                 .build()
                 .is_ok_and(|regex| regex.is_match(test_case))
@@ -146,7 +146,16 @@ impl<'a> RegExp<'a> {
                 .to_string();
         }
 
-        Regex::new(&regex_str).unwrap()
+        Self::compile(&regex_str, config)
+    }
+
+    fn compile(regex_str: &str, config: &RegExpConfig) -> Regex {
+        // The flag is not part of the expression itself but the test cases
+        // must be checked against the regular expression as it is finally used.
+        RegexBuilder::new(regex_str)
+            .case_insensitive(config.is_case_insensitive_matching)
+            .build()
+            .unwrap()
     }
 
     fn regex_matches_all_test_cases(regex: &Regex, test_cases: &[String]) -> bool {
